@@ -31,7 +31,10 @@ def write(design, r, style=True):
 
     def comment():
         if style and r.random() < 0.25:
-            c = r.choice(["note", "a (b) c", "", "x ; y", None, None])
+            c = r.choice(["note", "a (b) c", "", "x ; y", None, None, 2, 3])
+            if isinstance(c, int):
+                # a comment may hold several strings
+                return "(%s %s)%s" % (kw("comment"), sp().join('"line %d"' % k_ for k_ in range(c)), sp())
             if c is None:
                 return "(%s)%s" % (kw("comment"), sp())        # a comment may hold zero strings
             return "(%s \"%s\")%s" % (kw("comment"), c, sp())
